@@ -38,7 +38,7 @@ import (
 //      for P, a route with next hop P that was seen under c (at an earlier
 //      quiescent instant after c's registration, or added in this very window
 //      by an announcement that travelled only over c) does not disappear -
-//      except when its origin has not been announced over c for a route TTL,
+//      except when it has not been refreshed for a route TTL (it may expire),
 //      or a withdraw was sent.
 
 type pairState struct {
@@ -47,6 +47,7 @@ type pairState struct {
 	link      *simnet.Link
 	firstSeen time.Duration
 	ev        map[string]bool
+	evLast    map[string]time.Time // last refresh instant seen for the route
 	lastAge   time.Duration
 }
 
@@ -57,8 +58,6 @@ type advRec struct {
 	to    int // receiving node
 	from  int // sending identity (node index)
 	keys  []string
-	orig  int
-	types uint8
 }
 
 type monitor struct {
@@ -75,12 +74,13 @@ type monitor struct {
 	retired  map[[2]int]map[int]bool
 	rawSends map[string]int // post-handshake frames an agent wrote on a raw peer's link
 
-	advAt     map[[3]int]time.Duration // (link, receiver, origin) -> last announcement written
 	recent    []advRec                 // announcements of the current and previous poll window
 	withdraws map[int]int              // receiver -> withdraw frames seen
 
 	subs    []chan routing.RouteChange
 	pollN   int
+	t0         time.Time
+	lastPollAt time.Time
 	period  time.Duration
 	stop    bool
 	stopped bool
@@ -93,13 +93,13 @@ func newMonitor(w *world) *monitor {
 	mon := &monitor{w: w, m: w.m,
 		nodeIdx: map[string]int{}, rawClaim: map[string]int{}, faulted: map[int]bool{}, stalled: map[int]bool{},
 		lastSend: map[[2]int]int{}, retired: map[[2]int]map[int]bool{}, rawSends: map[string]int{},
-		advAt: map[[3]int]time.Duration{}, withdraws: map[int]int{}, markerSkip: map[string]bool{},
+		withdraws: map[int]int{}, markerSkip: map[string]bool{},
 	}
 	for i, nd := range w.m.Nodes {
 		mon.nodeIdx[nd.Name] = i
 	}
 	for i := 0; i+1 < len(w.m.Nodes); i++ {
-		mon.pairs = append(mon.pairs, &pairState{x: i, p: i + 1, ev: map[string]bool{}}, &pairState{x: i + 1, p: i, ev: map[string]bool{}})
+		mon.pairs = append(mon.pairs, &pairState{x: i, p: i + 1, ev: map[string]bool{}, evLast: map[string]time.Time{}}, &pairState{x: i + 1, p: i, ev: map[string]bool{}, evLast: map[string]time.Time{}})
 	}
 	w.m.Tap.OnFrame = append(w.m.Tap.OnFrame, mon.onFrame)
 	return mon
@@ -159,7 +159,13 @@ func (mon *monitor) onFrame(ev *FrameEvent) {
 	}
 	x, ok := mon.nodeIdx[ev.From]
 	if !ok {
-		return // written by a raw peer
+		// written by a raw peer: only its announcements are recorded
+		if ci, raw := mon.rawClaim[ev.From]; raw && ev.Type == protocol.FrameRouteAdvertise {
+			if y, real := mon.nodeIdx[ev.To]; real {
+				mon.noteAdvert(ev, ci, y)
+			}
+		}
+		return
 	}
 	p, ok := mon.identOf(ev.To)
 	if !ok {
@@ -190,26 +196,27 @@ func (mon *monitor) onFrame(ev *FrameEvent) {
 	}
 	switch ev.Type {
 	case protocol.FrameRouteAdvertise:
-		adv, err := protocol.DecodeRouteAdvertise(ev.Payload)
-		if err != nil {
-			return
-		}
-		on := mon.m.NodeByID(adv.OriginAgent)
-		orig := -1
-		if on != nil {
-			orig = on.Idx
-		}
-		mon.advAt[[3]int{l, y, orig}] = simrt.Elapsed()
-		rec := advRec{at: simrt.Elapsed(), poll: mon.pollN, link: l, to: y, from: x, orig: orig}
-		for _, r := range adv.Routes {
-			if k := cidrKey(r); k != "" {
-				rec.keys = append(rec.keys, k)
-			}
-		}
-		mon.recent = append(mon.recent, rec)
+		mon.noteAdvert(ev, x, y)
 	case protocol.FrameRouteWithdraw:
 		mon.withdraws[y]++
 	}
+}
+
+// noteAdvert records an announcement written on ev.Link in the name of identity
+// `from` toward node `to`.
+func (mon *monitor) noteAdvert(ev *FrameEvent, from, to int) {
+	adv, err := protocol.DecodeRouteAdvertise(ev.Payload)
+	if err != nil {
+		return
+	}
+	l := ev.Link.ID
+	rec := advRec{at: simrt.Elapsed(), poll: mon.pollN, link: l, to: to, from: from}
+	for _, r := range adv.Routes {
+		if k := cidrKey(r); k != "" {
+			rec.keys = append(rec.keys, k)
+		}
+	}
+	mon.recent = append(mon.recent, rec)
 }
 
 func (mon *monitor) start() {
@@ -244,6 +251,11 @@ func (mon *monitor) poll() {
 	m := mon.m
 	mon.pollN++
 	now := simrt.Elapsed()
+	if mon.t0.IsZero() {
+		mon.t0 = time.Now().Add(-now)
+		mon.lastPollAt = mon.t0
+	}
+	defer func() { mon.lastPollAt = time.Now() }()
 	// forget announcements older than the previous window
 	keep := mon.recent[:0]
 	for _, r := range mon.recent {
@@ -319,7 +331,7 @@ func (mon *monitor) poll() {
 				if st.conn != nil && c != nil {
 					simrt.Probe("c32_registration_moved_to_new_connection")
 				}
-				st.conn, st.link, st.firstSeen, st.ev = c, linkOf(c), now, map[string]bool{}
+				st.conn, st.link, st.firstSeen, st.ev, st.evLast = c, linkOf(c), now, map[string]bool{}, map[string]time.Time{}
 				st.lastAge = 0
 			}
 			if c == nil {
@@ -354,6 +366,7 @@ func (mon *monitor) poll() {
 				}
 				simrt.Probe("c32_add_attributed_to_current_connection")
 				st.ev["cidr|"+k+"|"+m.NameOf(a.OriginAgent)] = true
+				st.evLast["cidr|"+k+"|"+m.NameOf(a.OriginAgent)] = mon.lastPollAt
 			}
 			// R3b
 			var missing []string
@@ -364,24 +377,23 @@ func (mon *monitor) poll() {
 			}
 			sort.Strings(missing)
 			for _, k := range missing {
-				on := -1
 				parts := strings.Split(k, "|")
-				if i, ok := mon.nodeIdx[parts[2]]; ok {
-					on = i
-				}
-				at, announced := mon.advAt[[3]int{st.link.ID, x, on}]
-				if !announced || now-at > mon.w.ttl-2*time.Second || mon.withdraws[x] > 0 {
+				// a route that has not been refreshed for a TTL may expire
+				last := st.evLast[k]
+				if time.Since(last) > mon.w.ttl-2*time.Second || mon.withdraws[x] > 0 {
 					simrt.Probe("c32_r3_guard_skipped")
 					delete(st.ev, k)
 					continue
 				}
+				at := last.Sub(mon.t0)
 				simrt.Failf("route-removed-under-live-connection", "a route learned over the registered, open connection disappeared although that connection was never torn down ("+parts[0]+")",
-					"%s lost %s (next hop %s) while link %d stayed registered and open since t=%v; last announced over it at t=%v, now t=%v; relay=%v",
+					"%s lost %s (next hop %s) while link %d stayed registered and open since t=%v; last refreshed at t=%v, now t=%v; relay=%v",
 					nd.Name, k, m.Nodes[st.p].Name, st.link.ID, st.firstSeen, at, now, nd.A.VerifRelaySizes()["tcp"])
 			}
 			if now > st.firstSeen {
-				for k := range present {
+				for k, r := range present {
 					st.ev[k] = true
+					st.evLast[k] = r.LastUpdate
 				}
 			}
 		}
